@@ -34,19 +34,40 @@ def Pc.skipped : Pc → Bool
 def Pc.quiet : Pc → Bool
   | .idle => true | .polled true => true | .stopped => true | _ => false
 
-/-- A: whoever consumes has something to consume; every launch happened with output available -/
+/-- output only grows: what could be consumed can still be consumed after more output appeared -/
+theorem canConsume_mono (cfg : Cfg) (outs : List Nat) (c : Nat) (h : canConsume cfg outs = true) :
+    canConsume cfg (c :: outs) = true := by
+  simp only [canConsume, List.all_eq_true, Bool.or_eq_true, Bool.not_eq_true'] at h ⊢
+  intro p hp
+  rcases h p hp with h1 | h1
+  · exact Or.inl h1
+  · refine Or.inr ?_
+    have : p.id ∈ outs := by simpa using h1
+    simp [this]
+
+/-- A: whoever consumes has something to consume from EVERY producer of its own stage; every launch happened
+with output of every same-stage producer available; `hasOutput` is "some producer has output" -/
 def InvA (cfg : Cfg) (s : St) : Prop :=
-  (s.consume = true → cfg.noProd = true ∨ s.hasOutput = true) ∧ (∀ e ∈ s.execLog, e.avail = true)
+  (s.consume = true → canConsume cfg s.outs = true) ∧ (∀ e ∈ s.execLog, e.avail = true) ∧
+  (∀ c ∈ s.outs, s.hasOutput = true ∧ cfg.isProd c = true)
 
 theorem invA_init (cfg : Cfg) : InvA cfg (init cfg) := by
-  simp [InvA, init]
+  simp only [InvA, init, Cfg.preOutput]
+  refine ⟨by simp, by simp, ?_⟩
+  intro c hc
+  rw [List.mem_filter] at hc
+  exact ⟨List.any_eq_true.mpr ⟨c, hc.1, hc.2⟩, hc.2⟩
 
 theorem invA_step (cfg : Cfg) (s : St) (op : Op) (h : InvA cfg s) : InvA cfg (step cfg s op) := by
   obtain ⟨clock, prodDone, finTime, suicide, armed, consume, retries, cancel, kc, hasProc, procKilled,
-    lastLaunched, aged, hasOutput, lastOutput, execLog, pc, cause, pollsFin, books⟩ := s
+    lastLaunched, aged, hasOutput, lastOutput, outs, execLog, pc, cause, pollsFin, books⟩ := s
   simp only [InvA] at h ⊢
   rcases op with e | o
-  · cases e <;> simp only [step, envStep, doKill] <;> (repeat' split) <;> grind
+  · cases e with
+    | out c =>
+      have hm := canConsume_mono cfg outs c
+      simp only [step, envStep] <;> (repeat' split) <;> grind
+    | _ => simp only [step, envStep, doKill] <;> (repeat' split) <;> grind
   · cases pc <;> simp only [step, engStep, post, doKill] <;> (repeat' split) <;> grind
 
 /-- B: flags that imply that the producers finished; who cancelled -/
@@ -62,7 +83,7 @@ theorem invB_init (cfg : Cfg) : InvB cfg (init cfg) := by
 
 theorem invB_step (cfg : Cfg) (s : St) (op : Op) (h : InvB cfg s) : InvB cfg (step cfg s op) := by
   obtain ⟨clock, prodDone, finTime, suicide, armed, consume, retries, cancel, kc, hasProc, procKilled,
-    lastLaunched, aged, hasOutput, lastOutput, execLog, pc, cause, pollsFin, books⟩ := s
+    lastLaunched, aged, hasOutput, lastOutput, outs, execLog, pc, cause, pollsFin, books⟩ := s
   simp only [InvB] at h ⊢
   rcases op with e | o
   · cases e <;> simp only [step, envStep, doKill] <;> (repeat' split) <;> grind [Pc.pdws, Pc.fc]
@@ -84,7 +105,7 @@ theorem invC_step (cfg : Cfg) (hf : Fixed cfg) (s : St) (op : Op) (hB : InvB cfg
     InvC cfg (step cfg s op) := by
   obtain ⟨g1, g2⟩ := hf
   obtain ⟨clock, prodDone, finTime, suicide, armed, consume, retries, cancel, kc, hasProc, procKilled,
-    lastLaunched, aged, hasOutput, lastOutput, execLog, pc, cause, pollsFin, books⟩ := s
+    lastLaunched, aged, hasOutput, lastOutput, outs, execLog, pc, cause, pollsFin, books⟩ := s
   simp only [InvB, InvC] at hB h ⊢
   rcases op with e | o
   · cases e <;> simp only [step, envStep, doKill] <;> (repeat' split) <;>
@@ -118,7 +139,7 @@ theorem invD_init (cfg : Cfg) (hp : cfg.preOutput = false) : InvD cfg (init cfg)
 theorem invD_step (cfg : Cfg) (hr : 1 ≤ cfg.retries) (s : St) (op : Op)
     (hB : InvB cfg s) (h : InvD cfg s) : InvD cfg (step cfg s op) := by
   obtain ⟨clock, prodDone, finTime, suicide, armed, consume, retries, cancel, kc, hasProc, procKilled,
-    lastLaunched, aged, hasOutput, lastOutput, execLog, pc, cause, pollsFin, books⟩ := s
+    lastLaunched, aged, hasOutput, lastOutput, outs, execLog, pc, cause, pollsFin, books⟩ := s
   simp only [InvB, InvD, selfCause] at hB h ⊢
   rcases op with e | o
   · cases e <;> simp only [step, envStep, doKill] <;> (repeat' split) <;>
